@@ -243,8 +243,45 @@ def reconfigured_handler_cases(ctx, n):
                 break
 
 
+def older_handler_cases(ctx, n):
+    """two evaluators with differently configured handlers (and a default handler built in between) alive at the same time; empty-side
+    scenes are evaluated with the OLDER one first: each evaluator answers with its own handler's values"""
+    rng = ctx.rng
+    for i in range(n):
+        gm = rng.sample(["DSC", "IOU", "RVD"], rng.randint(1, 3))
+        h1, h2 = rand_handler(rng, gm), rand_handler(rng, gm)
+        cfg1, cfg2 = E.mk_cfg("MATCHED", ["IOU"], handler=h1), E.mk_cfg("MATCHED", ["IOU"], handler=h2)
+        with impl.quiet():
+            ev1 = impl.mk_evaluator(cfg1, global_metrics=gm)
+            impl.EdgeCaseHandler()
+            ev2 = impl.mk_evaluator(cfg2, global_metrics=gm)
+        shape = (4, 5)
+        a = np.zeros(shape, np.uint8)
+        a[1:3, 1:4] = 2
+        z = np.zeros(shape, np.uint8)
+        for (ev, h, which) in ((ev1, h1, "older"), (ev2, h2, "newer"), (ev1, h1, "older")):
+            scen, (p, r) = rng.choice([("EMPTY_PRED", (z, a)), ("EMPTY_REF", (a, z)), ("NO_INSTANCES", (z, z))])
+            res = E.run_impl(cfg1 if ev is ev1 else cfg2, p, r, global_metrics=gm, evaluator=ev)
+            inp = {"shape": list(shape), "pred": gen.arr_json(p), "ref": gen.arr_json(r), "handlers": [h1, h2], "used": which, "global_metrics": gm,
+                   "scenario": scen, "src": f"older{i}"}
+            ctx.case(inp, True)
+            ctx.count("two_handlers_alive")
+            if isinstance(res, str):
+                ctx.violation(f"evaluation with the {which} of two evaluators raised {res}", inp, key={"kind": "global-raises"})
+                break
+            t = {m: z_ for m, z_ in h["table"]}
+            bad = [m for m in gm if isinstance(res["ungrouped"]["global_bin_" + m.lower()], str)
+                   or not same_value(res["ungrouped"]["global_bin_" + m.lower()], E.edge_py(t[m][scen]), exact=True)]
+            if bad:
+                m = bad[0]
+                ctx.violation(f"two evaluators with different handlers exist; the {which} one reports global_bin_{m.lower()} = {res['ungrouped']['global_bin_' + m.lower()]} for {scen}, "
+                              f"its own handler prescribes {t[m][scen]}", inp, impl=res["ungrouped"], key={"kind": "global-empty"})
+                break
+
+
 def run(ctx):
     corpus(ctx)
+    older_handler_cases(ctx, ctx.scale(25, 200))
     voxel_count_corpus(ctx)
     optimized_cases(ctx, ctx.scale(25, 150))
     reconfigured_handler_cases(ctx, ctx.scale(30, 300))
@@ -286,6 +323,9 @@ def replay(ctx, rec):
     i = rec["input"]
     if i.get("mode") == "python -O":
         optimized_cases(ctx, 40)
+        return
+    if "handlers" in i and "used" in i:
+        older_handler_cases(ctx, 40)
         return
     if "handler_after" in i:
         reconfigured_handler_cases(ctx, 80)
